@@ -30,6 +30,8 @@ def run(rep):
     stagetrace.validate_dwt2(rep, "C10", rep.tier, "DWTInverse")
     suitetrace.validate_suite(rep, "C10", "DWT1DInverse")      # the calls of the repository's own tests
     suitetrace.validate_suite(rep, "C10", "DWTInverse")
+    from .. import scalechecks
+    scalechecks.dwt_inverse(rep, "C10", rep.tier)          # large inputs (size thresholds)
     rep.assumptions += ["TLC bounds in coverage.tlc_runs", "pywt.idwt with indicator taps pins Ref"]
 
 
